@@ -131,8 +131,12 @@ def cases(tier):
     for depth in (3, 4):
         for order in itertools.permutations(range(depth)):
             srcs.append(("chain", list(order)))
+    def repeats(expr):
+        bits = [b for b in vw.expand(expr, {k: (v[0], v[1], True) for k, v in c06.NETS.items()}) if b[0] == "n"]
+        return len(bits) != len(set(bits))
     for c in c06.cases(tier):
-        if c[0] == "expr" and len(c) == 6 and (tier == "thorough" or c[2] == 2):
+        # quick: the width-2 port, plus every width-3 expression that names a net bit twice ({w[1:0], w[0]})
+        if c[0] == "expr" and len(c) == 6 and (tier == "thorough" or c[2] == 2 or (c[2] == 3 and repeats(c[1]))):
             srcs.append(("expr", c[1], c[2], c[3], c[4]))
     for src in srcs:
         for tr in TRANSFORMS:
